@@ -14,6 +14,10 @@ RULE = ("histories of real CLI invocations (init/new/cp/mv/rm/reset/commit/upgra
         "operation; plus commits replayed with every mutating call failing once and with SIGKILL before each call, judged the same way; distinct non-trivial = distinct (operation, exit status)")
 
 
+# ordinary ids, and families in which one id runs through the inner directories of another object (direct layout)
+HISTORY_KW = dict(ids=[["obj0", "obj1", "obj2"], ["obj0", "obj1", "obj2"], ["a", "a/v1/content/docs/x", "a/v2/y", "a/b"], ["p", "p/v1/content", "p/v1/x", "q"]])
+
+
 def make_oracles():
     return [physprop.AppendOnly()]
 
